@@ -1,0 +1,12 @@
+//! Verification hooks for `syncer` (compiled only with `--cfg eigerco_lumina_verif`).
+
+use crate::block_ranges::BlockRange;
+
+/// `syncer::calculate_range_to_fetch`
+pub fn calculate_range_to_fetch(
+    subjective_head_height: u64,
+    synced_headers: &[BlockRange],
+    limit: u64,
+) -> BlockRange {
+    super::calculate_range_to_fetch(subjective_head_height, synced_headers, limit)
+}
